@@ -631,6 +631,16 @@ func init() {
 		w, r := fr.i.px.heldLocks()
 		return len(w) + len(r)
 	})
+	reg(vrtPkg+"MutexFree", func(fr *frame, a []value) value {
+		// a[0]: interface holding a *sync.Mutex / *sync.RWMutex
+		p, ok := a[0].(iface).v.(*value)
+		if !ok || p == nil {
+			return true
+		}
+		l := fr.i.px.lockOf(p)
+		l.ensure()
+		return l.writerBy < 0 && l.readers() == 0
+	})
 	reg(vrtPkg+"OnBlock", func(fr *frame, a []value) value {
 		fr.i.px.setUser("onblock", a[0])
 		return nil
